@@ -77,6 +77,11 @@ func init() {
 	add("C07", "C07.knownkey (the store resolves a creator by its full public key: ParticipantEventsCache.participantID succeeds only under a positive ByPubKey lookup of the key string — not by the 32-bit hash of the key, which a foreign key can be ground to collide with; shared with C16.knownkey).", as1(knownKeyRule, "C07.knownkey"))
 	add("C16", "C16.knownkey (see C07.knownkey: per-creator records are keyed by the full public key).", as1(knownKeyRule, "C16.knownkey"))
 	add("C05", "C05.everytx (core.addTransactions queues every transaction it is given — no filter on content: a submission that was acknowledged is never dropped, and two identical submissions are two transactions).", as1(everyTxRule, "C05.everytx"))
+	add("C15", "C15.rebuilt (ReadWireInfo rebuilds the event from the wire form it was given — creator and parents resolved through checked lookups, no early return of some other stored event for the same slot; see C07.wire).", sharedAs(c07wire, map[string]string{"C07.wire": "C15.rebuilt"}))
+	add("C11", "C11.commitreceipts (every success return of core.commit has processed the application's receipts for the block: a replayed database rebuilds the validator-set history only through this call, whatever the mode of the node; shared with C10.commitreceipts).", as1(commitReceiptsRule, "C11.commitreceipts"))
+	add("C10", "C10.commitreceipts (see C11.commitreceipts).", as1(commitReceiptsRule, "C10.commitreceipts"))
+	add("C02", "C02.handed (core.commit hands every block it is given to the application before it returns — no node-local mark or mode withholds one: the delivered sequence has no holes; shared with C05.handed).", as1(handedRule, "C02.handed"))
+	add("C05", "C05.handed (see C02.handed: the transactions of a block the hashgraph produced are not withheld from the application).", as1(handedRule, "C05.handed"))
 	add("C01", "C01.mapcut (see C03.mapcut).", as(mapCutRule, "C01.mapcut", consensusFuncs))
 	add("C13", "C13.mapcut (see C03.mapcut, for the functions that build a frame).", as(mapCutRule, "C13.mapcut", frameFuncs))
 }
@@ -86,28 +91,43 @@ func init() {
 // errorExit: every feasible path from the edge b->s (jump threading over the result temporaries of inlined helpers)
 // ends in a return whose error result cannot be nil: an error exit of the function.
 func errorExit(b, s *ssa.BasicBlock) bool {
-	ok, sawRet, n := true, false, 0
+	ok, n := true, 0
+	visited := map[*ssa.BasicBlock]bool{}
+	var rets []*ssa.Return
 	forwardFromEdge(b, s, func(cur *ssa.BasicBlock) bool {
 		n++
-		if !ok || n > 40 || len(cur.Instrs) == 0 {
+		if !ok || n > 60 || len(cur.Instrs) == 0 {
 			ok = false
 			return false
 		}
+		first := !visited[cur]
+		visited[cur] = true
 		last := cur.Instrs[len(cur.Instrs)-1]
 		if _, isPanic := last.(*ssa.Panic); isPanic {
 			return false
 		}
-		ret, isRet := last.(*ssa.Return)
-		if !isRet {
-			return true
+		if ret, isRet := last.(*ssa.Return); isRet {
+			if first {
+				rets = append(rets, ret)
+			}
+			return false
 		}
-		sawRet = true
+		return true
+	})
+	if !ok || len(rets) == 0 {
+		return false
+	}
+	for _, ret := range rets {
+		cur := ret.Block()
 		nr := len(ret.Results)
 		if nr == 0 || !isErrorType(ret.Results[nr-1].Type()) {
-			ok = false
 			return false
 		}
 		for _, rp := range retPointsOf(ret, nr-1) {
+			// only the edges into the returning block that lie on the paths explored
+			if rp.pred != nil && !visited[rp.pred] && !(cur == s && rp.pred == b) {
+				continue
+			}
 			v := rp.val
 			if neverNilErr(v, 3) {
 				continue
@@ -119,14 +139,6 @@ func errorExit(b, s *ssa.BasicBlock) bool {
 				if isNil, known := knownNilOnEdge(rp.pred, v); known && !isNil {
 					continue
 				}
-				if c, isC := v.(*ssa.Const); isC && c.Value == nil && rp.pred != b {
-					// a nil operand on another edge into the returning block: is that edge on our paths?
-					// (conservative: only edges from blocks we did not come through are ignored when the
-					// returning block is the direct target)
-					if cur == s {
-						continue
-					}
-				}
 			}
 			if cur == s {
 				if l, lok := edgeLit(b, s); lok {
@@ -135,11 +147,10 @@ func errorExit(b, s *ssa.BasicBlock) bool {
 					}
 				}
 			}
-			ok = false
+			return false
 		}
-		return false
-	})
-	return ok && sawRet
+	}
+	return true
 }
 
 // mapCutRule: a consensus function that ranges over a map and ACCUMULATES (adds to a map, appends to a slice, stores a
@@ -1676,4 +1687,116 @@ func everyTxRule(p *Prog, r *Report, rule string) {
 		ok, why = false, "addTransactions neither appends its whole argument on every path nor loops over it appending each element"
 	}
 	r.Check(ok, rule, "addTransactions:every-transaction-appended", p.pos(fn.Pos()), fnName(fn), "each submitted transaction is appended", why)
+}
+
+/* ---------- C10.commitreceipts / C11.commitreceipts (seed C11h) ---------- */
+
+// commitReceiptsRule: every success return of core.commit has handed the application's receipts for that block to
+// processAcceptedInternalTransactions(block.RoundReceived(), receipts): no mode of the node (maintenance, replay, …) skips
+// it. The validator-set history is rebuilt ONLY this way when a database is replayed — Bootstrap reads peer-set 0 and nothing
+// else —, so a skipped call leaves the replaying node with the genesis set for ever.
+func commitReceiptsRule(p *Prog, r *Report, rule string) {
+	r.Rule(rule, 1, "every success return of core.commit is preceded by processAcceptedInternalTransactions(block.RoundReceived(), the application's receipts)")
+	fn := p.Func(NODE, "core", "commit")
+	if fn == nil {
+		r.Anchor(rule, "node.(*core).commit")
+		return
+	}
+	var sites []ssa.CallInstruction
+	for _, c := range callsIn(fn, named(NODE+".core.processAcceptedInternalTransactions")) {
+		if flowsFromCall(argN(c, 0), named(HG+".Block.RoundReceived"), 0) && (depOnField(argN(c, 1), "InternalTransactionReceipts") || depOnCall(argN(c, 1), named(HG+".Block.InternalTransactionReceipts"))) {
+			sites = append(sites, c)
+		}
+	}
+	ok, why := len(sites) > 0, ""
+	if len(sites) == 0 {
+		why = "core.commit does not call processAcceptedInternalTransactions with the block's round and the application's receipts"
+	}
+	nonNilOnEdge := func(pred, blk *ssa.BasicBlock, v ssa.Value) bool {
+		if l, okL := edgeLit(pred, blk); okL {
+			if x, isNil, okN := nilTest(l); okN && !isNil && (x == v || unwrap(x) == unwrap(v)) {
+				return true
+			}
+		}
+		// the test sits on the single-predecessor chain above pred (or pred's own entry edge)
+		if isNil, known := knownNilOnEdge(pred, v); known && !isNil {
+			return true
+		}
+		return false
+	}
+	for _, rp := range p.succRets(fn, errNil, 0) {
+		// the points from which the return is entered with a possibly-nil error
+		var ats []ssa.Instruction
+		blk := rp.ret.Block()
+		switch {
+		case rp.pred != nil:
+			if !nonNilOnEdge(rp.pred, blk, rp.val) {
+				ats = append(ats, rp.pred.Instrs[len(rp.pred.Instrs)-1])
+			}
+		case len(blk.Preds) > 1:
+			for _, pr := range blk.Preds {
+				if !nonNilOnEdge(pr, blk, rp.val) {
+					ats = append(ats, pr.Instrs[len(pr.Instrs)-1])
+				}
+			}
+		default:
+			ats = append(ats, rp.ret)
+		}
+		for _, at := range ats {
+			dom := false
+			for _, c := range sites {
+				if dominates(c, at) {
+					dom = true
+				}
+			}
+			if !dom && len(sites) > 0 {
+				ok, why = false, "a success return of core.commit ("+p.ipos(rp.ret)+") is reached without processAcceptedInternalTransactions: in that mode the node never records the validator-set changes of the blocks it commits (on a replayed database: the genesis set for ever)"
+			}
+		}
+	}
+	r.Check(ok, rule, "commit:receipts-always-processed", p.pos(fn.Pos()), fnName(fn), "receipts processed before every success return", why)
+}
+
+/* ---------- C02.handed (seed C02h): every block that reaches core.commit is handed to the application ---------- */
+
+// handedRule: core.commit invokes the application's commit callback (the function value in core.proxyCommitCallback) before
+// every return: no node-local condition (a high-water mark, a mode) withholds a block the hashgraph produced. The hashgraph
+// numbers blocks consecutively from the last stored one; a block that is created and stored but not handed over leaves a
+// hole in what the application sees, and a block record without state hash, receipts and own signature.
+func handedRule(p *Prog, r *Report, rule string) {
+	r.Rule(rule, 1, "core.commit calls the application's commit callback before every return")
+	fn := p.Func(NODE, "core", "commit")
+	fCb := p.Field(NODE, "core", "proxyCommitCallback")
+	if fn == nil || fCb == nil {
+		r.Anchor(rule, "node.(*core).commit / core.proxyCommitCallback")
+		return
+	}
+	var sites []ssa.CallInstruction
+	for _, b := range fn.Blocks {
+		for _, in := range b.Instrs {
+			if ci, ok := in.(ssa.CallInstruction); ok && dynCallThroughField(ci, fCb) {
+				sites = append(sites, ci)
+			}
+		}
+	}
+	ok, why := len(sites) > 0, ""
+	if len(sites) == 0 {
+		why = "core.commit never calls proxyCommitCallback"
+	}
+	for _, b := range fn.Blocks {
+		ret, isRet := b.Instrs[len(b.Instrs)-1].(*ssa.Return)
+		if !isRet || (b.Index != 0 && len(b.Preds) == 0) {
+			continue
+		}
+		dom := false
+		for _, c := range sites {
+			if dominates(c, ret) {
+				dom = true
+			}
+		}
+		if !dom && len(sites) > 0 {
+			ok, why = false, "the return at "+p.ipos(ret)+" is reached without the application having been handed the block: a block the hashgraph created and stored is withheld from the application (a hole in the delivered sequence)"
+		}
+	}
+	r.Check(ok, rule, "commit:block-always-handed-to-the-application", p.pos(fn.Pos()), fnName(fn), "the commit callback runs before every return", why)
 }
